@@ -53,6 +53,9 @@ pub struct Cols {
 	pub present: BTreeMap<String, Vec<bool>>,
 	/// item offsets (len = rows + 1), when the version has items
 	pub item_off: Option<Vec<i64>>,
+	/// entry counts of structs that may have no value column at all (the frame-end struct before it had
+	/// any field keeps its one-entry-per-row record in its validity bitmap)
+	pub aux_len: BTreeMap<String, usize>,
 }
 
 fn col_imm<T: NativeType + Bits>(a: &PrimitiveArray<T>) -> Col {
@@ -229,6 +232,9 @@ pub fn from_immutable(f: &im::Frame) -> Cols {
 	}
 	if let Some(e) = &f.end {
 		wim::end(&mut out, "end.", e);
+		if let Some(v) = &e.validity {
+			out.aux_len.insert("end".into(), v.len());
+		}
 	}
 	if let Some(i) = &f.item {
 		wim::item(&mut out, "item.", i);
@@ -262,6 +268,9 @@ pub fn from_mutable(f: &mu::Frame) -> Cols {
 	}
 	if let Some(e) = &f.end {
 		wmu::end(&mut out, "end.", e);
+		if let Some(v) = &e.validity {
+			out.aux_len.insert("end".into(), v.len());
+		}
 	}
 	if let Some(i) = &f.item {
 		wmu::item(&mut out, "item.", i);
